@@ -177,7 +177,7 @@ def main(pid, tier, seed):
     corpus = lib.load_corpus(pid)
     insts = corpus + [instgen.gen_instance(rng, profile_for(pid, rng)) for _ in range(n)]
     if not os.environ.get("VERIF_REPLAY"):
-        insts += instgen.boundary_instances(random.Random(seed * 131 + int(pid[1:])), 6 if tier == "quick" else 200)
+        insts += instgen.boundary_instances(random.Random(seed * 131 + int(pid[1:])), 12 if tier == "quick" else 200)
     jobs = [(d, k, inst) for k, inst in enumerate(insts)]
     # corpus instances: both entry points in the debug build, and the optimised build
     jobs = [(d, k, inst) for k, inst in enumerate(insts) if k >= len(corpus)]
